@@ -25,11 +25,3 @@ func (m *Monitor) checkDot(i int, op *Op, rec *OpRec, verr error) {
 	m.stats["dot.parsed"]++
 }
 
-type GraphCase struct {
-	N     int     `json:"n"`
-	Edges [][]int `json:"edges"`
-}
-
-func extraGen(kind string, seed int64, prop string, idx int) (*Case, bool) { return nil, false }
-func extraCheck(prop string, c *Case, trace bool) (*CaseResult, bool)      { return nil, false }
-func extraJobs(prop, tier string) []JobSpec                                { return nil }
